@@ -229,7 +229,8 @@ class Unit:
                 f.write(text)
         if os.path.exists(gen):
             # unit-specific generator (e.g. template instantiation); same rules: reads the repo, writes build dir
-            env = dict(os.environ, VERIF_REPO=self.repo, VERIF_BUILD_DIR=self.bdir, VERIF_UNIT_DIR=self.dir)
+            env = dict(os.environ, VERIF_REPO=self.repo, VERIF_BUILD_DIR=self.bdir, VERIF_UNIT_DIR=self.dir,
+                       VERIF_TIER=getattr(self, "tier", "quick"))
             rc, out, err, _ = _run_env([sys.executable, gen], env, self.dir)
             if rc != 0:
                 raise Undecided("extraction broke: gen.py: " + (out + err)[-2000:])
@@ -681,6 +682,7 @@ def check_property(prop, tier="quick", repo=None, only_unit=None, only_target=No
     units = [u for u in units_for(prop, repo) if not only_unit or u.name == only_unit]
     for u in units:
         u.bdir = os.path.join(BUILD, prop + "-" + tier, u.name)   # private per property: checks may run concurrently
+        u.tier = tier
     if not units:
         print("no unit serves property %s" % prop)
         return 2
